@@ -71,6 +71,10 @@ def nearestDec (f : Fmt) (ds : List Nat) (e : Int) : Nat :=
   else if 0 ≤ e then nearestRat f (D * 10 ^ e.toNat) 1
   else nearestRat f D (10 ^ (-e).toNat)
 
+/-- the exact rational `digits × 10^e` as numerator / denominator -/
+def decimalRat (ds : List Nat) (e : Int) : Nat × Nat :=
+  if 0 ≤ e then (ofDigits 10 ds * 10 ^ e.toNat, 1) else (ofDigits 10 ds, 10 ^ (-e).toNat)
+
 def nearest64 (ds : List Nat) (e : Int) : Nat := nearestDec binary64 ds e
 def nearest32 (ds : List Nat) (e : Int) : Nat := nearestDec binary32 ds e
 
@@ -87,5 +91,42 @@ def narrow32 (bits : Nat) : Nat :=
     let mq := decode binary64 bits
     if 0 ≤ mq.2 then nearestRat binary32 (mq.1 * 2 ^ mq.2.toNat) 1
     else nearestRat binary32 mq.1 (2 ^ (-mq.2).toNat)
+
+/-! ## What "correctly rounded, round to nearest, ties to even" means (IEEE 754-2008 §4.3.1, §7.4) -/
+
+def absDiff (a b : Nat) : Nat := (a - b) + (b - a)
+
+/-- the value `m · 2^q` (`q ≥ emin`) counted in units of `2^emin` (the smallest subnormal): every value of the
+format is a whole number of such units -/
+def units (f : Fmt) (m : Nat) (q : Int) : Nat := m * 2 ^ (q - f.emin).toNat
+
+/-- `2^(emax+1)` in those units: the first magnitude that is no longer finite. (binary64: `2^1024 / 2^-1074`) -/
+def overflowUnits (f : Fmt) : Nat := 2 ^ (f.p + 2 ^ f.ebits - 3)
+
+/-- `⌊(N/M) / 2^q⌋` -/
+def quotAt (N M : Nat) (q : Int) : Nat := (scale N M q).1 / (scale N M q).2
+
+/-- `r` is the bit pattern IEEE 754 prescribes for rounding `x = N / M > 0` to the format `f` in
+round-to-nearest-ties-to-even.  With `A0 / B0 = x / 2^emin` exactly (so `x` is `A0 / B0` units):
+
+there is a significand/exponent pair `(m, q)` — *the result rounded as if the exponent range were unbounded
+above* (§7.4) — such that
+* `2^q` is the unit in the last place of `x`: `q ≥ emin`, `⌊x / 2^q⌋ < 2^p`, and `≥ 2^(p-1)` unless `q = emin`
+  (subnormal range, gradual underflow); `m ≤ 2^p` (`= 2^p` when rounding carries into the next binade);
+* **nearest**: no value `m' · 2^q'` with a `p`-bit significand and any exponent `q' ≥ emin` is closer to `x`;
+* the error is at most half a unit in the last place, and **ties to even**: exactly half ⇒ `m` even;
+* **overflow** (§7.4): if `m · 2^q` is below `2^(emax+1)` the result is its encoding, otherwise `+∞`. -/
+def IsNearestEven (f : Fmt) (N M r : Nat) : Prop :=
+  ∃ (m : Nat) (q : Int),
+    f.emin ≤ q ∧ quotAt N M q < 2 ^ f.p ∧ (f.emin < q → 2 ^ (f.p - 1) ≤ quotAt N M q) ∧
+    m ≤ 2 ^ f.p ∧ (f.emin < q → 2 ^ (f.p - 1) ≤ m) ∧
+    (∀ (m' : Nat) (q' : Int), f.emin ≤ q' → m' < 2 ^ f.p →
+      absDiff (scale N M f.emin).1 (units f m q * (scale N M f.emin).2) ≤
+      absDiff (scale N M f.emin).1 (units f m' q' * (scale N M f.emin).2)) ∧
+    2 * absDiff (scale N M f.emin).1 (units f m q * (scale N M f.emin).2)
+      ≤ 2 ^ (q - f.emin).toNat * (scale N M f.emin).2 ∧
+    (2 * absDiff (scale N M f.emin).1 (units f m q * (scale N M f.emin).2)
+      = 2 ^ (q - f.emin).toNat * (scale N M f.emin).2 → m % 2 = 0) ∧
+    r = if units f m q < overflowUnits f then encode f m q else f.infBits
 
 end RsslVerif.Spec.Dec2Bin
